@@ -1,0 +1,68 @@
+//go:build verif
+
+package tbtc
+
+import (
+	"crypto/ecdsa"
+
+	"github.com/keep-network/keep-core/pkg/chain"
+)
+
+// Thin exported wrappers used by the out-of-tree verification harness (property C22).
+// They add no behaviour of their own.
+
+// VerifC22HeartbeatProbability exposes coordinationHeartbeatProbability.
+const VerifC22HeartbeatProbability = coordinationHeartbeatProbability
+
+// VerifC22WindowIndex returns newCoordinationWindow(coordinationBlock).index().
+func VerifC22WindowIndex(coordinationBlock uint64) uint64 {
+	return newCoordinationWindow(coordinationBlock).index()
+}
+
+// VerifC22GetSeed calls coordinationExecutor.getSeed for a wallet with the given public key.
+func VerifC22GetSeed(
+	c Chain,
+	walletPublicKey *ecdsa.PublicKey,
+	operators []chain.Address,
+	coordinationBlock uint64,
+) ([32]byte, error) {
+	ce := &coordinationExecutor{
+		chain: c,
+		coordinatedWallet: wallet{
+			publicKey:             walletPublicKey,
+			signingGroupOperators: operators,
+		},
+	}
+	return ce.getSeed(coordinationBlock)
+}
+
+// VerifC22GetLeader calls coordinationExecutor.getLeader for a wallet backed by operators.
+func VerifC22GetLeader(
+	walletPublicKey *ecdsa.PublicKey,
+	operators []chain.Address,
+	seed [32]byte,
+) chain.Address {
+	ce := &coordinationExecutor{
+		coordinatedWallet: wallet{
+			publicKey:             walletPublicKey,
+			signingGroupOperators: operators,
+		},
+	}
+	return ce.getLeader(seed)
+}
+
+// VerifC22GetActionsChecklist calls coordinationExecutor.getActionsChecklist.
+func VerifC22GetActionsChecklist(
+	walletPublicKey *ecdsa.PublicKey,
+	operators []chain.Address,
+	windowIndex uint64,
+	seed [32]byte,
+) []WalletActionType {
+	ce := &coordinationExecutor{
+		coordinatedWallet: wallet{
+			publicKey:             walletPublicKey,
+			signingGroupOperators: operators,
+		},
+	}
+	return ce.getActionsChecklist(windowIndex, seed)
+}
